@@ -228,7 +228,9 @@ func (fg *FG) call(st *State, cc *ssa.CallCommon, in ssa.Instruction, resultOf s
 	env.old = pre
 	for _, q := range c.Ensures {
 		t := env.tr(q.E)
+		fg.curGroup = groupOf(q.Tag)
 		fg.assume(fmt.Sprintf("(=> %s %s)", fg.guard(), t.T))
+		fg.curGroup = ""
 	}
 	return results
 }
@@ -384,7 +386,21 @@ func (fg *FG) dynCall(st *State, cc *ssa.CallCommon, in ssa.Instruction, f Val) 
 		if c == nil {
 			fg.fail("functype %s refers to unknown contract %s", name, mode)
 		}
-		return fg.applyContract(st, c, nil, sig, args, in, map[string]Val{"self": f})
+		extra := map[string]Val{"self": f}
+		// the caller's parameters are visible to function-type contracts under "caller.<name>"-free
+		// plain names when they do not clash with the contract's own parameters
+		for n, v := range fg.params {
+			clash := n == "self"
+			for _, pn := range c.Params {
+				if pn == n {
+					clash = true
+				}
+			}
+			if !clash {
+				extra[n] = v
+			}
+		}
+		return fg.applyContract(st, c, nil, sig, args, in, extra)
 	}
 	fg.fail("call through function value %q without a functype declaration", name)
 	return nil
@@ -508,6 +524,44 @@ func (fg *FG) evalModEntry(x *SExpr, env *Env, src string) []modEntry {
 		}
 		return []modEntry{{loc: &Loc{Kind: LElem, Heap: fam, Ref: fmt.Sprintf("(s.arr %s)", s.T), Ty: sl.Elem()}, elems: true, lo: lo, hi: hi, src: src}}
 	}
+	if x.Kind == SCall && x.A.Kind == SIdent && x.A.Name == "family" {
+		// family(NAME): every cell of a heap family (e.g. CH_len: the buffers of all channels)
+		fam := x.Args[0].String()
+		if _, ok := fg.heapSort[fam]; !ok {
+			switch fam {
+			case "CH_len", "CH_cap":
+				fg.heapSort[fam] = "(Array Int Int)"
+			case "CH_closed":
+				fg.heapSort[fam] = "(Array Int Bool)"
+			default:
+				fg.fail("modifies family(%s): unknown family", fam)
+			}
+		}
+		return []modEntry{{loc: &Loc{Kind: LCell, Heap: fam, Ref: "0"}, all: true, src: src}}
+	}
+	if x.Kind == SCall && x.A.Kind == SIdent && (x.A.Name == "allfields" || x.A.Name == "allelems") {
+		// allfields(T): every field of every object of struct type T; allelems(T): every element of every []T
+		t, _ := env.resolveType(x.Args[0].String())
+		if t == nil {
+			fg.fail("modifies %s: cannot resolve type", x)
+		}
+		var out []modEntry
+		if x.A.Name == "allelems" {
+			fam, srt := fg.elemFamily(t)
+			fg.heapSort[fam] = srt
+			return []modEntry{{loc: &Loc{Kind: LElem, Heap: fam, Ref: "0"}, all: true, src: src}}
+		}
+		st, ok := structOf(t)
+		if !ok {
+			fg.fail("modifies allfields(%s): not a struct type", x.Args[0])
+		}
+		for i := 0; i < st.NumFields(); i++ {
+			fam, srt := fg.fieldFamily(t, st, i)
+			fg.heapSort[fam] = srt
+			out = append(out, modEntry{loc: &Loc{Kind: LField, Heap: fam, Ref: "0"}, all: true, src: src})
+		}
+		return out
+	}
 	if x.Kind == SCall && x.A.Kind == SIdent && x.A.Name == "fields" {
 		// fields(p): every field of the struct object p
 		p := env.tr(x.Args[0])
@@ -617,6 +671,11 @@ func (fg *FG) applyModifies(st *State, c *Contract, env *Env, in ssa.Instruction
 
 func (fg *FG) havocEntry(st *State, m modEntry) {
 	l := m.loc
+	if m.all {
+		fg.heap(st, l.Heap, "")
+		fg.havocHeap(st, l.Heap)
+		return
+	}
 	if strings.HasPrefix(l.Heap, "MV_") {
 		// whole map contents: values, presence, cardinality
 		for _, fam := range []string{l.Heap, mapPresence(l.Heap), "ML_" + l.Heap[3:]} {
@@ -680,6 +739,10 @@ func (fg *FG) frameCheckEntry(st *State, m modEntry, in ssa.Instruction) {
 		alts = append(alts, fmt.Sprintf("(>= %s %s)", m.lo, m.hi))
 	}
 	for _, e := range fg.modset {
+		if e.all && e.loc.Heap == l.Heap {
+			alts = append(alts, "true")
+			continue
+		}
 		if e.loc.Heap != l.Heap || e.loc.Kind != l.Kind {
 			continue
 		}
